@@ -736,7 +736,7 @@ class Fxp():
                 if not raw:
                     val, signed, n_word, n_frac = utils.str2num(val, self.signed, self.n_word, self.n_frac, return_sizes=True)
                 else:
-                    val, signed, n_word, _ = utils.str2num(val, self.signed, self.n_word, None, return_sizes=True)
+                    val, signed, n_word, _ = utils.str2num(val, self.signed, self.n_word, None, return_sizes=True, raw=True)
                     n_frac = self.n_frac
 
                 vdtype = None   # the parsed numbers keep the dtype of the converted array (int or float), as for a list of strings
@@ -746,7 +746,7 @@ class Fxp():
             if not raw:
                 val, signed, n_word, n_frac = utils.str2num(val, self.signed, self.n_word, self.n_frac, return_sizes=True)
             else:
-                val, signed, n_word, _ = utils.str2num(val, self.signed, self.n_word, None, return_sizes=True)
+                val, signed, n_word, _ = utils.str2num(val, self.signed, self.n_word, None, return_sizes=True, raw=True)
                 n_frac = self.n_frac
 
         elif isinstance(val, Decimal):
